@@ -52,6 +52,15 @@ RULE = ("fixed families (never queried / queried without domain / with explicit 
         "creates an instance and relates or queries it; distinct by case text")
 
 
+def extra_obligations():
+    """Second tie by translation, shared with C13 (harness/translate/sg_translate.py, Model/SymbolGraphTable.lean): the
+    container-operation tables of the SymbolGraph methods are regenerated from /repo's CURRENT source and the kernel re-checks
+    that they equal the model's tables, whose interpreters are proved to be the model functions the theorems of this property
+    speak about (remove_node / remove_dead_instances: what is deleted from which SymbolGraph structure when an instance is gone). A changed table is searched for a concrete failing history by this property's own correspondence."""
+    from props.c13 import extra_obligations as sg_obligations
+    return sg_obligations()
+
+
 def budget(tier: str) -> int:
     return 1500 if tier == "quick" else 30000
 
